@@ -1,6 +1,7 @@
 package props
 
 import (
+	"context"
 	"fmt"
 	"math/rand"
 	"runtime"
@@ -323,6 +324,7 @@ func C08(cfg Cfg) int {
 		run.Inconclusive("no signature verified")
 	}
 	run.Sample(map[string]any{"cells": "see distinct_classes_sample", "sizes": sizes, "gomaxprocs": c08Procs})
+	c08RealFetcher(run, cfg)
 	raceChild(run, cfg, "C08race")
 	return run.Finish()
 }
@@ -362,4 +364,86 @@ func c08RaceChild(cfg Cfg) int {
 	}
 	fmt.Printf("RACE-CHILD operations %d\n", ops)
 	return 0
+}
+
+// c08RealFetcher: accounts of real wallets behind the real account fetcher, with names that contain the path
+// separator next to siblings named after their prefixes ("val", "val/1", "val/1/2").  A request addressed to one
+// of them, by name or by key, single or batched, must be signed by exactly that account.
+func c08RealFetcher(run *evid.Run, cfg Cfg) {
+	accts := []string{"val", "val/1", "val/1/2", "x/y", "x", "plain"}
+	c, err := rig.NewCluster(rig.ClusterOpts{Dir: cfg.Dir("c08-real"), IDs: []uint64{1}, NDWallets: map[string][]string{"Slashy": accts, "val": {"1", "1/2"}}})
+	if err != nil {
+		run.Inconclusive("real-fetcher slice: " + err.Error())
+		return
+	}
+	defer c.Close()
+	st := c.Inst[1].Stack
+	bg := context.Background()
+	type target struct {
+		name string
+		key  *rig.Key
+	}
+	var ts []target
+	for i, a := range accts {
+		ts = append(ts, target{"Slashy/" + a, rig.DetKey("ndw-Slashy", i)})
+	}
+	ts = append(ts, target{"val/1", rig.DetKey("ndw-val", 0)}, target{"val/1/2", rig.DetKey("ndw-val", 1)})
+	verify := func(what string, t target, root [32]byte, res core.Result, sig []byte) {
+		run.Eval(1)
+		run.Count("real_fetcher_requests", 1)
+		if res != core.ResultSucceeded || len(sig) == 0 {
+			run.Distinct(fmt.Sprintf("real fetcher %s %s -> %s", what, t.name, res))
+			return
+		}
+		run.Count("real_fetcher_signatures", 1)
+		if ok, _ := oracle.VerifySig(t.key.Pub, root[:], sig); ok {
+			run.Distinct(fmt.Sprintf("real fetcher %s %s -> signed by the addressed account", what, t.name))
+			return
+		}
+		by := "no known account"
+		for _, o := range ts {
+			if ok, _ := oracle.VerifySig(o.key.Pub, root[:], sig); ok {
+				by = o.name
+			}
+		}
+		run.Violate(fmt.Sprintf("request addressed to %s (%s) was signed by %s", t.name, what, by), map[string]any{"addressed": t.name, "how": what, "signed_by": by})
+	}
+	epoch := uint64(5)
+	for round := 0; round < 3; round++ {
+		for _, t := range ts {
+			for _, byKey := range []bool{false, true} {
+				name, key, what := t.name, []byte(nil), "by name"
+				if byKey {
+					name, key, what = "", t.key.Pub, "by key"
+				}
+				d := &rules.SignData{Domain: Dom([]byte{9, 0, 0, 0}, byte(round)), Data: Root32(byte(40 + round))}
+				res, sig := st.Signer.SignGeneric(bg, rig.Client1(), name, key, d)
+				verify("generic "+what, t, oracle.SigningRoot(b32(d.Data), d.Domain), res, sig)
+			}
+		}
+		// One batch over all of them, half by name and half by key.
+		epoch += 2
+		names := make([]string, len(ts))
+		keys := make([][]byte, len(ts))
+		data := make([]*rules.SignBeaconAttestationData, len(ts))
+		for i, t := range ts {
+			if (i+round)%2 == 0 {
+				names[i] = t.name
+			} else {
+				keys[i] = t.key.Pub
+			}
+			data[i] = &rules.SignBeaconAttestationData{Domain: Dom(DomainAttester, 0), Slot: epoch * 32, CommitteeIndex: uint64(i), BeaconBlockRoot: Root32(7),
+				Source: &rules.Checkpoint{Epoch: epoch, Root: Root32(1)}, Target: &rules.Checkpoint{Epoch: epoch + 1, Root: Root32(2)}}
+		}
+		res, sigs := st.Signer.SignBeaconAttestations(bg, rig.Client1(), names, keys, data)
+		for i, t := range ts {
+			if i < len(res) && i < len(sigs) {
+				root := oracle.SigningRoot(oracle.AttestationDataRoot(epoch*32, uint64(i), Root32(7), epoch, Root32(1), epoch+1, Root32(2)), Dom(DomainAttester, 0))
+				verify("batch attestation", t, root, res[i], sigs[i])
+			}
+		}
+	}
+	if run.Get("real_fetcher_signatures") == 0 {
+		run.Inconclusive("real-fetcher slice obtained no signature")
+	}
 }
